@@ -349,6 +349,33 @@ def _atoms(el):
     return out
 
 
+def _isotope_ions(ctx, tname, el):
+    """(route, charge, atom) for atoms that carry BOTH an isotope and a charge (round 8): the lightest and the
+    heaviest isotope of the element, for hydrogen also the D and T objects of the table, in every charge state the
+    element lists and uncharged.  X-ray data do not depend on the isotope, so these atoms must be served the entry
+    of the element in that charge state - or nothing where the file has no such entry."""
+    out = []
+    isos = []
+    try:
+        nums = list(el.isotopes)
+    except Exception:  # noqa
+        nums = []
+    for A in ([nums[0], nums[-1]] if len(nums) > 1 else nums):
+        isos.append(('isotope', el[A]))
+    if el.number == 1:
+        T = _table(ctx, tname)
+        isos += [('D', T.D), ('T', T.T)]
+    for lab, iso in isos:
+        out.append((lab, 0, iso))
+        for q in el.ions:
+            try:
+                out.append((lab + '-ion', q, iso.ion[q]))
+            except Exception as exc:  # noqa
+                ctx.violation('%s.ion[%d] cannot be built (%s: %s); the element lists this charge'
+                              % (iso, q, type(exc).__name__, exc), group='f0', route=lab + '-ion', charge=q)
+    return out
+
+
 def _grid(case):
     """(Q values, numpy vector, cache key): the 200-point grid over [0, 30]; cases that carry a 'qseed'
     (thorough tier) add 150 uniform and 150 log-uniform points drawn from that seed."""
@@ -383,6 +410,55 @@ def _vector_ok(ctx, got, ref, name):
         return None
     bad = np.where(~ok)[0]
     return int(bad[0])
+
+
+IGRID = (0, 1, 2, 5, 11, 12, 15, 16, 17, 23, 30)      # whole-number Q values inside [0, 30]
+F32_RTOL = 2e-5     # a float32 argument may be processed in single precision (eps = 6e-8, exponents up to ~100)
+
+
+def _number_kinds(ctx, fn, ref_of, what, fields):
+    """Round 8: the same function asked with other kinds of numbers - small integer dtypes (whose squares do not fit
+    the dtype), python ints, float32, reversed / strided / read-only views - must give the stated expression."""
+    np = _state['np']
+    ref = ref_of(list(IGRID), 'igrid')
+    calls = []
+    for dt in ('uint8', 'int8', 'int16', 'int32', 'int64', 'uint16', 'float32', 'float64'):
+        calls.append(('%s array' % dt, np.array(IGRID, dtype=dt), RTOL if dt != 'float32' else F32_RTOL))
+    calls.append(('python ints', list(IGRID), RTOL))
+    calls.append(('tuple of ints', tuple(IGRID), RTOL))
+    ro = np.array(IGRID, dtype=float)
+    ro.setflags(write=False)
+    calls.append(('read-only array', ro, RTOL))
+    for label, arg, tol in calls:
+        try:
+            v = np.asarray(fn(arg), dtype=float)
+        except Exception as exc:  # noqa
+            ctx.violation('%s(%s) raises %s: %s' % (what, label, type(exc).__name__, exc), **fields)
+            continue
+        ctx.evaluated(len(IGRID), 'formfactor-number-kind')
+        if v.shape != (len(IGRID),) or not all(abs(v[i] - ref[i][0]) <= tol * ref[i][1] for i in range(len(IGRID))):
+            ctx.violation('%s(%s) = %r differs from the stated expression %r'
+                          % (what, label, v.tolist(), [r[0] for r in ref]), **fields)
+    # views: reversed and strided
+    base = np.array([x for Q in IGRID for x in (float(Q), -1.0)])
+    for label, arg, idx in (('reversed view', np.array(IGRID, dtype=float)[::-1], list(range(len(IGRID)))[::-1]),
+                            ('strided view', base[::2], list(range(len(IGRID))))):
+        v = np.asarray(fn(arg), dtype=float)
+        ctx.evaluated(len(IGRID), 'formfactor-number-kind')
+        if v.shape != (len(IGRID),) or not all(abs(v[k] - ref[i][0]) <= RTOL * ref[i][1] for k, i in enumerate(idx)):
+            ctx.violation('%s(%s) differs from the stated expression' % (what, label), **fields)
+    # scalars of small kinds: Q*Q = 256, 289 do not fit uint8; 144 does not fit int8
+    for label, arg, i in (('numpy.uint8(16)', np.uint8(16), IGRID.index(16)), ('numpy.uint8(17)', np.uint8(17), IGRID.index(17)),
+                          ('numpy.int8(12)', np.int8(12), IGRID.index(12)), ('numpy.int16(30)', np.int16(30), IGRID.index(30)),
+                          ('python int 23', 23, IGRID.index(23)), ('True', True, IGRID.index(1))):
+        try:
+            v = float(fn(arg))
+        except Exception as exc:  # noqa
+            ctx.violation('%s(%s) raises %s: %s' % (what, label, type(exc).__name__, exc), **fields)
+            continue
+        ctx.evaluated(1, 'formfactor-number-kind')
+        if not abs(v - ref[i][0]) <= RTOL * ref[i][1]:
+            ctx.violation('%s(%s) = %r, stated expression gives %r' % (what, label, v, ref[i][0]), **fields)
 
 
 def _scalar_ok(got, ref):
@@ -624,6 +700,8 @@ def _magnetic_state(ctx, sym, q, route, ff, entry, G):
                 if np.shape(v) != np.shape(arg) or not _scalar_ok(np.asarray(v).ravel()[0], ref[i]):
                     ctx.violation('%s %s_Q(%r) = %r, own evaluation %r' % (tag, jn, arg, v, ref[i][0]),
                                   group='magnetic', route=route, charge=q, jn=jn, kind='shape')
+        _number_kinds(ctx, fn, lambda g, k: m.magnetic_ref(got, order, g, k), '%s %s_Q' % (tag, jn),
+                      dict(group='magnetic', route=route, charge=q, jn=jn, kind='number-kind'))
         # Q = 0
         for zero in (0, 0.0):
             v0 = fn(zero)
@@ -669,7 +747,7 @@ def _f0(ctx, tname, el, atoms, G):
     m = _state['model']
     np = _state['np']
     grid, Q, gkey = G
-    for route, q, atom in atoms:
+    for route, q, atom in list(atoms) + _isotope_ions(ctx, tname, el):
         name = m.cm_name(el.symbol, q)
         entry = m.cm.get(name)
         ctx.evaluated(1, 'f0-presence')
@@ -708,6 +786,8 @@ def _f0(ctx, tname, el, atoms, G):
         if np.shape(lst) != (len(idx),) or not all(_scalar_ok(lst[k], ref[i]) for k, i in enumerate(idx)):
             ctx.violation('f0(list of 5) of %s = %r differs from the vector call' % (atom, lst), group='f0',
                           route=route, charge=q, kind='shape')
+        _number_kinds(ctx, atom.xray.f0, lambda g, k: m.cm_ref(name, g, k), 'f0 of %s' % atom,
+                      dict(group='f0', route=route, charge=q, kind='number-kind'))
         for i in (0, 77, 199):
             for arg in (grid[i], [grid[i]]):
                 v = atom.xray.f0(arg)
